@@ -164,7 +164,7 @@ def checkTour (c : Case) : VM Unit := do
         if modelClass m != "panic" then vdiff "C12" "remove-class" s!"{opStr} impl=panic model={modelClass m}"
     | ["subpath", r, a, b] =>
       let some t := assocGet? regs (nat! r) | pure ()
-      let m := Tour.subPath nw true t (nat! a) (nat! b)
+      let m := Tour.subPath nw t (nat! a) (nat! b)
       let ref := subPathRef nw t.nodes (nat! a) (nat! b)
       let implPath : Option (List Nat) := res.findSome? (fun l =>
         match l with | "T" :: "path" :: ns => some (natList ns) | _ => none)
